@@ -251,6 +251,22 @@ def run(tier, seed, report):
                         A.run(store_object("q", ("ok", u.toks[0], "str", 0)))
                         A.run(store_object("p", ("ok", u.toks[0], "str", 0)))
                         A.run(store_metadata("p", ("ok", u.toks[1], "str", 0), "f1"))
+                elif i < 2 * len(u.toks) * 2 + 12:
+                    # ... and the checksum verb asked for the store's own algorithm (both spellings) and another one,
+                    # on an intact object and on one whose bytes have changed on disk since it was stored (what a
+                    # fixity audit is for: client and API must report the same digest of what is there NOW)
+                    k_ = i - 2 * len(u.toks) * 2 - 6
+                    directed = ("getchecksum", u.toks[0])
+                    A.run(store_object("p", ("ok", u.toks[0], "str", 0)))
+                    directed_algo = [cfg["store_alg"], oracle.DATAONE[cfg["store_alg"]], "md5"][k_ % 3]
+                    if k_ >= 3:
+                        for dp, _dn, fn in os.walk(os.path.join(A.root, "objects")):
+                            for f_ in fn:
+                                if "tmp" not in os.path.relpath(dp, A.root).split(os.sep):
+                                    with open(os.path.join(dp, f_), "r+b") as fh:
+                                        b0 = fh.read(1)
+                                        fh.seek(0)
+                                        fh.write(bytes([(b0[0] ^ 0x01) if b0 else 0x41]))
                 for c in u.history(rng.choice([0, 2, 4, 6]) if directed is None else 0, w):
                     A.run(c)
                 rootB = os.path.join(A.base, "storeB")
@@ -295,6 +311,8 @@ def run(tier, seed, report):
                     verbs, first = [directed[0]], directed[0]
                     o = dict.fromkeys(o)
                     o["pid"] = "p"
+                    if directed[0] == "getchecksum":
+                        o["algo"] = directed_algo
                 argv = [A.root]
                 flag = {"pid": "-pid", "path": "-path", "algo": "-algo", "checksum": "-checksum",
                         "checksum_algo": "-checksum_algo", "obj_size": "-obj_size", "formatid": "-formatid"}
